@@ -272,10 +272,10 @@ func NewNet(signedRoot bool) (*Net, error) {
 // DelegateOpts controls how a child is attached to its parent.
 type DelegateOpts struct {
 	Signed    bool
-	PublishDS bool   // parent publishes the child's DS (ignored when !Signed)
-	WrongDS   bool   // parent's DS describes a key the child does not hold
-	NSTTL     uint32 // TTL of the NS RRset in the referral (default 3600)
-	DSTTL     uint32 // TTL of the DS RRset (default 3600)
+	PublishDS bool    // parent publishes the child's DS (ignored when !Signed)
+	WrongDS   bool    // parent's DS describes a key the child does not hold
+	NSTTL     uint32  // TTL of the NS RRset in the referral (default 3600)
+	DSTTL     uint32  // TTL of the DS RRset (default 3600)
 	OnServer  *Server // host the child on an existing socket (parent and child on one server)
 	NSEC3     bool
 	OptOut    bool
